@@ -297,6 +297,7 @@ def run(rep, facts, tier):
     from rules import dispatch
     dispatch.run_rule(rep, fx, 'R02.24', 'default', floor=1)
     dispatch.run_kinds(rep, fx, 'R02.25', 'default')
+    dispatch.run_fresh_state(rep, fx, 'R02.26')
 
 
 
